@@ -269,7 +269,8 @@ class Scenario:
         return [x for x in (out or "").split("\n") if x]
 
     def dirty(self):
-        rc, out, _ = self.q.plain_git("status", "--porcelain", "--untracked-files=no")
+        # as status.rs:get_staged_and_unstaged_filenames sees it (untracked files count)
+        rc, out, _ = self.q.plain_git("status", "--porcelain", "--untracked-files=normal")
         return bool(out.strip())
 
     def lines(self, p):
